@@ -271,6 +271,10 @@ def run(ctx, ck):
     from ._creation import check_neighbour_segment
     check_neighbour_segment(ctx, ck, rule='R-SIB.junction-geometry')
     ck.floor('end-state cases', ncases, 30)
+    # every junction found by the end matching is registered (both directions) - an unregistered one has no pulse
+    ck.rule('R-SIB.add-conn', '_add_conn registers the junction in both directions on every path')
+    from .C06 import check_add_conn
+    check_add_conn(ctx, ck, 'R-SIB.add-conn')
     ck.undecided += ['k-1 pulses for every junction of k ends (depends on runtime connection graph)']
 
 
